@@ -777,6 +777,60 @@ impl<'a> Gen<'a> {
         }
     }
 
+    /// a written union that holds a subtype CHAIN of three (A, B: A, C: B — or Int, Float,
+    /// Complex through the stub operators), with an argument whose type is inferred
+    fn gen_chain_union(&mut self) {
+        if self.rng.chance(1, 3) {
+            // the stub's Complex operators take Union[int, float, complex]
+            let x = self.fresh("v");
+            let z = self.fresh("v");
+            let op = *self.rng.pick(&["+", "-", "*"]);
+            let lit = if self.rng.chance(1, 2) { format!("{}", self.rng.below(50)) } else { format!("{}.5", self.rng.below(50)) };
+            self.out.push_str(&format!("def {x} := {lit}\ndef {z} := Complex({}, {}) {op} {x}\n", self.rng.below(9), self.rng.below(9)));
+            return;
+        }
+        // find a chain among the visible classes, else make one
+        let pc = self.plain_classes();
+        let mut chain: Option<(usize, usize, usize)> = None;
+        for &c in &pc {
+            for &b in &pc {
+                for &a in &pc {
+                    if a != b && b != c && self.classes[c].parents.contains(&b) && self.classes[b].parents.contains(&a) && self.classes[a].args.is_empty() && self.classes[b].args.is_empty() && self.classes[c].args.is_empty() {
+                        chain = Some((a, b, c));
+                    }
+                }
+            }
+        }
+        let (a, b, c) = match chain {
+            Some(x) => x,
+            None => {
+                let mut idx: Vec<usize> = vec![];
+                for k in 0..3 {
+                    self.counter += 1;
+                    let name = format!("{}C{}", capitalise(&self.prefix), self.counter);
+                    let f = self.fresh("f");
+                    let parent = if k == 0 { String::new() } else { format!(": {}", self.classes[idx[k - 1]].name) };
+                    let parents: Vec<usize> = if k == 0 { vec![] } else { vec![idx[k - 1]] };
+                    self.out.push_str(&format!("class {name}{parent}\n    def {f}: Int := {}\n\n", self.rng.below(90)));
+                    self.classes.push(ClassInfo { name, args: vec![], fields: vec![(f, Ty::Int)], methods: vec![], parents, is_exception: false });
+                    idx.push(self.classes.len() - 1);
+                }
+                (idx[0], idx[1], idx[2])
+            }
+        };
+        let mut names = vec![self.classes[a].name.clone(), self.classes[b].name.clone(), self.classes[c].name.clone()];
+        if self.rng.chance(1, 2) {
+            self.rng.shuffle(&mut names);
+        }
+        let f = self.fresh("cfn");
+        let p = self.fresh("p");
+        self.out.push_str(&format!("def {f}({p}: {{{}}}) => print(\"{}\")\n", names.join(", "), self.rng.pick(WORDS)));
+        let which = *self.rng.pick(&[a, b, c]);
+        let v = self.fresh("v");
+        let ctor = self.ctor(which, 2);
+        self.out.push_str(&format!("def {v} := {ctor}\n{f}({v})\n"));
+    }
+
     /// functions as values: function-typed parameters, unions of function types (also of
     /// different arity), calls through them, anonymous functions as arguments
     fn gen_callable(&mut self) {
@@ -1004,12 +1058,13 @@ impl<'a> Gen<'a> {
 
     fn gen_toplevel(&mut self) {
         let v = self.fresh("v");
-        let kinds = if self.conservative { 17 } else { 27 };
+        let kinds = if self.conservative { 17 } else { 29 };
         match self.rng.below(kinds) {
             18 | 19 | 20 => self.gen_same_class_union(&v),
             21 | 22 | 23 => self.gen_union_receiver(&v),
             24 => self.gen_alias(),
             25 | 26 => self.gen_callable(),
+            27 | 28 => self.gen_chain_union(),
             16 => {
                 let (ut, tys) = self.union_ty();
                 let k = self.rng.below(tys.len() as u64) as usize;
